@@ -286,13 +286,24 @@ static int ops() {
             Position pos = TextIO::readFEN(trim(rest.substr(rest.find('|') + 1)));
             RelaxedShared<S64> mt; mt = (S64)maxT;
             p.tt().updateTB(pos, mt);
+        } else if (k == "UPDTBA") {         // aborted generation: <kind> | fen   (maxTimeMillis set to 0 after 2 ms)
+            std::string rest; std::getline(is, rest);
+            Position pos = TextIO::readFEN(trim(rest.substr(rest.find('|') + 1)));
+            RelaxedShared<S64> mt; mt = (S64)-1;
+            std::thread th([&mt]() { std::this_thread::sleep_for(std::chrono::milliseconds(2)); mt = (S64)0; });
+            p.tt().updateTB(pos, mt);
+            th.join();
         } else if (k == "DUMP") {
             dumpFrame(p, std::cout);
             dumpContent(p, std::cout);
             std::cout << '\n';
         } else if (k == "DUMPF") {          // frame + emptiness flags (after real searches)
             dumpFrame(p, std::cout);
-            std::cout << " empty=" << (ttEmpty(p, p.tt().tableSize) ? 1 : 0) << (histZero(p) ? 1 : 0)
+            // the top 5 MB of a table of at least 7 MB may hold on-demand tablebase bytes (also
+            // after the tablebase was dropped without clearing): not transposition-table entries
+            u64 lim = p.tt().tableSize;
+            if (lim * 16 >= 7 * 1024 * 1024) lim -= 5 * 1024 * 1024 / 16;
+            std::cout << " empty=" << (ttEmpty(p, lim) ? 1 : 0) << (histZero(p) ? 1 : 0)
                       << (ktZero(p) ? 1 : 0) << (evDefault(p) ? 1 : 0) << '\n';
         } else if (k == "DETECT") {
             // which variant of the model does the code match?
@@ -320,7 +331,18 @@ static int ops() {
             ev2.setWhiteContempt(-200);
             int c = ev2.evalPos();
             int kk = (b == c && a != c) ? 1 : 0;
-            std::cout << "V " << g << ' ' << e << ' ' << kk << " evals=" << a << ',' << b << ',' << c << '\n';
+            // t: an aborted on-demand tablebase generation does not stay installed
+            int t = -1;
+            {
+                p.cmd("setoption name Hash value 16"); p.ready();
+                Position kqk = TextIO::readFEN("8/8/8/4k3/8/8/3QK3/8 w - - 0 1");
+                RelaxedShared<S64> mt; mt = (S64)-1;
+                std::thread th([&mt]() { std::this_thread::sleep_for(std::chrono::milliseconds(2)); mt = (S64)0; });
+                bool ok = p.tt().updateTB(kqk, mt);
+                th.join();
+                if (!ok) t = p.tt().tbGen ? 0 : 1;
+            }
+            std::cout << "V " << g << ' ' << e << ' ' << kk << ' ' << t << " evals=" << a << ',' << b << ',' << c << '\n';
             resetAll(p);
         } else {
             std::cerr << "bad op: " << line << '\n';
@@ -335,9 +357,8 @@ static int ops() {
  *  insert key1 (depth 0, lower bound), insert key2 into the same bucket, probe key1. */
 static int f5() {
     for (int g = 0; g < 16; g++) {
-        TranspositionTable tt(1 << 20);
+        TranspositionTable tt(1 << 20);             // cleared, generation 0
         for (int i = 0; i < g; i++) tt.nextGeneration();
-        tt.clear();
         tt.insert(1, mkMove(8 + 16 * 64, 10), TType::T_GE, 0, 0, 0);
         tt.insert(2, mkMove(9 + 17 * 64, 20), TType::T_GE, 0, 0, 0);
         TranspositionTable::TTEntry e;
